@@ -401,7 +401,9 @@ struct StorHarness : Harness
                  slot, uris[g.below(4)], slot, cyc, ms.c_str(), (int)g.below(4),
                  (int)g.below(4));
         ops.push_back(b);
-        snprintf(b, sizeof(b), "start slot=%d", slot);
+        // frame ids are the caller's: they need not start at 0 in a file
+        snprintf(b, sizeof(b), "start slot=%d fid=%llu", slot,
+                 (unsigned long long)(g.chance(0.5) ? 0 : g.below(100000)));
         ops.push_back(b);
         int na = (int)g.range(1, 5);
         for (int i = 0; i < na; ++i) {
@@ -415,7 +417,9 @@ struct StorHarness : Harness
             if (g.chance(0.25)) {
                 // the user moves the output away and acquires again with the
                 // same configuration (start without a new set)
-                snprintf(b, sizeof(b), "restart slot=%d", slot);
+                snprintf(b, sizeof(b), "restart slot=%d fid=%llu", slot,
+                         (unsigned long long)(g.chance(0.5) ? 0
+                                                            : g.below(100000)));
                 ops.push_back(b);
                 int nb = (int)g.range(1, 3);
                 for (int i = 0; i < nb; ++i) {
@@ -874,7 +878,9 @@ struct StorHarness : Harness
                 s.cycle_exts.clear();
                 s.cycle_len = 0;
                 s.big = plan.gets("mode") == "huge";
-                s.next_frame_id = 0;
+                s.next_frame_id = (uint64_t)op.i("fid", 0);
+                if (s.next_frame_id)
+                    probe("reach.first_frame_id_nonzero");
                 probe("n.starts");
             } else if (op.name == "append" || op.name == "bigappend") {
                 if (!s.dev || !s.started)
